@@ -138,3 +138,104 @@ Section Link.
     table_eq t t' -> parse_all SC e t = parse_all SC e t'.
   Proof. intros H. unfold parse_all. now apply parse_cells_eq. Qed.
 End Link.
+
+Section LinkDensity.
+  Context {T : Type} (SC : Scalar T) (e : env (T:=T)).
+
+  (* the same with materials that parse_material reads alike in the environment
+     (density in another letter case under a case-insensitive normalize_float) *)
+  Definition card_eq_d (c c' : card) : Prop :=
+    let '(m, g, o) := c in let '(m', g', o') := c' in
+    parse_material e m = parse_material e m' /\ lower g = lower g' /\ (search_like (lower g) = None -> g = g') /\
+    tokenize o = tokenize o' /\ owf o /\ owf o'.
+
+  Definition table_eq_d (t t' : table) : Prop :=
+    Forall2 (fun p p' => fst p = fst p' /\ card_eq_d (snd p) (snd p')) t t'.
+
+  Lemma apply_but_eq_d b b' o o' :
+    card_eq_d b b' -> tokenize o = tokenize o' -> owf o -> owf o' ->
+    card_eq_d (apply_but b o) (apply_but b' o').
+  Proof.
+    destruct b as [[m g] ob], b' as [[m' g'] ob']. cbn [card_eq_d apply_but].
+    intros (Em & Eg & Eg' & Eo & W & W') Et Wo Wo'. repeat split; auto.
+    - rewrite (tokenize_app ob o (proj1 W) (proj2 Wo)), (tokenize_app ob' o' (proj1 W') (proj2 Wo')).
+      now rewrite Eo, Et.
+    - exact (proj1 (owf_app _ _ W Wo)).
+    - exact (proj2 (owf_app _ _ W Wo)).
+    - exact (proj1 (owf_app _ _ W' Wo')).
+    - exact (proj2 (owf_app _ _ W' Wo')).
+  Qed.
+
+  Lemma lookup_eq_d n t t' :
+    table_eq_d t t' ->
+    match lookup n t, lookup n t' with
+    | Some c, Some c' => card_eq_d c c'
+    | None, None => True
+    | _, _ => False
+    end.
+  Proof.
+    induction 1 as [|[k c] [k' c'] r r' [Hk Hc] _ IH]; [exact I|].
+    cbn [lookup fst snd] in *. subst k'.
+    destruct (lookup n r), (lookup n r'); try contradiction; [exact IH|].
+    destruct (n =? k)%Z; [exact Hc|exact I].
+  Qed.
+
+  Lemma resolve_like_eq_d fuel t t' : table_eq_d t t' -> forall c c',
+    card_eq_d c c' ->
+    match resolve_like fuel t c, resolve_like fuel t' c' with
+    | Ok d, Ok d' => card_eq_d d d' /\ search_like (lower (snd (fst d))) = None
+    | Err x, Err x' => x = x'
+    | _, _ => False
+    end.
+  Proof.
+    intros Ht. induction fuel as [|f IH]; intros [[m g] o] [[m' g'] o'] Hc;
+      pose proof Hc as (Em & Eg & Eg' & Eo & W & W'); cbn [resolve_like]; rewrite <- Eg.
+    - destruct (search_like (lower g)) eqn:S; [reflexivity|]. split; [exact Hc|exact S].
+    - destruct (search_like (lower g)) as [n|] eqn:S; [|split; [exact Hc|exact S]].
+      pose proof (lookup_eq_d n t t' Ht) as L.
+      destruct (lookup n t) as [b|], (lookup n t') as [b'|]; try contradiction; [|reflexivity].
+      apply IH. now apply apply_but_eq_d.
+  Qed.
+
+  Lemma worker_eq_d rank lat c c' :
+    card_eq_d c c' -> search_like (lower (snd (fst c))) = None ->
+    worker SC e rank lat c = worker SC e rank lat c'.
+  Proof.
+    destruct c as [[m g] o], c' as [[m' g'] o']. cbn [card_eq_d fst snd].
+    intros (Em & Eg & Eg' & Eo & _) S. rewrite <- (Eg' S).
+    unfold worker. now rewrite Em, Eo.
+  Qed.
+
+  Lemma parse_one_cell_eq_d fuel t t' rank lat c c' :
+    table_eq_d t t' -> card_eq_d c c' ->
+    parse_one_cell SC fuel e t rank lat c = parse_one_cell SC fuel e t' rank lat c'.
+  Proof.
+    intros Ht Hc. unfold parse_one_cell.
+    pose proof (resolve_like_eq_d fuel t t' Ht c c' Hc) as R.
+    destruct (resolve_like fuel t c) as [d|x], (resolve_like fuel t' c') as [d'|x']; try contradiction.
+    - destruct R as [Hd S]. cbn [bind]. now apply worker_eq_d.
+    - now subst.
+  Qed.
+
+  Lemma table_eq_length_d (t t' : table) : table_eq_d t t' -> List.length t = List.length t'.
+  Proof. induction 1; cbn; congruence. Qed.
+
+  Lemma parse_cells_eq_d t t' : table_eq_d t t' -> forall todo todo' rank,
+    table_eq_d todo todo' ->
+    parse_cells SC e t rank todo = parse_cells SC e t' rank todo'.
+  Proof.
+    intros Ht todo todo' rank H. revert rank.
+    induction H as [|[k c] [k' c'] r r' [Hk Hc] _ IH]; intros rank; [reflexivity|].
+    cbn [parse_cells fst snd] in *. subst k'.
+    rewrite (table_eq_length_d _ _ Ht).
+    rewrite (parse_one_cell_eq_d (List.length t') t t' rank (latopt e k) c c' Ht Hc).
+    destruct (parse_one_cell SC (List.length t') e t' rank (latopt e k) c'); [|reflexivity].
+    cbn [bind]. now rewrite IH.
+  Qed.
+
+  (* the whole cell parser of C15 does not distinguish such tables *)
+  Theorem parse_all_eq_d t t' :
+    table_eq_d t t' -> parse_all SC e t = parse_all SC e t'.
+  Proof. intros H. unfold parse_all. now apply parse_cells_eq_d. Qed.
+End LinkDensity.
+
